@@ -124,7 +124,12 @@ C02Mismatch(z) ==
               : e \in RespEntries(fr, 17)} :
              fr \in Framings, ip \in IdLenP(0)}
 
-C02Cases(z) == C02Normal(0) \cup C02Exc(0) \cup (IF Part = 0 THEN C02Mismatch(0) ELSE {})
+\* a well-formed TCP frame followed by bytes its header and byte count do not account for
+C02Trailing(z) ==
+    UNION {{PR(e, "tcp", RespADU("tcp", 4660, r) \o x, "mismatch") : e \in RespEntries("tcp", r.fc)} :
+             r \in {Resp(fc, 1, 0, 0, Pat("ramp", n), <<>>, 0, <<>>) : fc \in {1, 2, 3, 4, 23}, n \in {2, 4, 250}},
+             x \in {<<0>>, <<1, 2>>, <<255, 255, 255>>}}
+C02Cases(z) == C02Normal(0) \cup C02Exc(0) \cup (IF Part = 0 THEN C02Mismatch(0) \cup C02Trailing(0) ELSE {})
 
 C02Self(k) == LET kd == ClassifyResp(k.framing, k.frame).kind IN kd = k._want \/ (k._want = "normal" /\ kd = "oversize")
 
@@ -234,6 +239,7 @@ C03Emit(z) ==
     UNION {{PR(e, "rtu", RespADU("rtu", 0, r), "normal") : e \in RespEntries("rtu", r.fc)} : r \in C03EmitResps(0)}
     \cup UNION {{PQ(e, "rtu", ReqADU("rtu", 0, r), "legal") : e \in ReqEntries("rtu", r.fc)} : r \in {x \in ReqSamples(0) : LegalReq(x) /\ x.unit = 1 /\ ~(x.fc \in {1, 2} /\ x.qty > 125)}}   \* (not the requests of known finding C09-F1)
     \cup UNION {{PR(e, "rtu", ExcADU("rtu", 0, u, f, code), "exception") : e \in DispEntries("rtu")} : u \in {1, 255}, f \in {1, 3, 16, 23, 100}, code \in {1, 2, 11, 255}}
+    \cup {[op |-> "emitexc", unit |-> u, fc |-> f, qty |-> code] : u \in {0, 1, 255}, f \in 0..255, code \in (IF Thorough THEN {0, 1, 2, 4, 11, 128, 255} ELSE {1, 4, 255})}
     \* write requests whose count field disagrees with their byte count (the parsers may or may not accept them; what an
     \* accepting parser emits again must still carry a consistent CRC)
     \cup UNION {{PQ(e, "rtu", RTUADU(1, <<16, 0, 16, 0, cnt, bc>> \o Pat("ramp", bc)), "any") : e \in ReqEntries("rtu", 16)} : cnt \in {1, 2, 3, 100}, bc \in {2, 4, 6}}
